@@ -25,6 +25,7 @@ func init() {
 			{"C07.loops-observe-ctx", "each long-running entry point reaches a ctx.Done() receive within call depth 3", 10, c07LoopsObserve},
 			{"C07.cli", "signal handler cancels the root context that every command receives; Execute error exits non-zero", 4, c07Cli},
 			{"C07.side-goroutine-errors", "the error a bare goroutine leaves in a variable of its starter is consulted before success is reported", 3, func(c *Ctx) { c.sideGoroutineErrors(func(string) bool { return true }) }},
+			{"C07.commands-propagate", "in the commands a failed (interrupted) context-taking operation makes the command fail", 15, c07CommandsPropagate},
 			{"C07.tmp-rename", "rename of the temp file only on the nil edge of assembly; temp in the same directory; deferred removal", 3, c07TmpRename},
 		},
 	})
@@ -499,5 +500,67 @@ func c07ErrIsError(c *Ctx) {
 				c.ok(key, iff.Pos(), "every return behind ctx.Err()!=nil yields a non-nil error")
 			}
 		}
+	}
+}
+
+// c07CommandsPropagate: in the command package a failure of any context-taking operation
+// (library call or local helper whose first parameter is a context.Context and that returns an
+// error) makes the calling function fail - the Interrupted error of a cancelled operation is not
+// overwritten or swallowed on the way to main's exit status.
+var c07PropagateExceptions = map[string]string{}
+
+func c07CommandsPropagate(c *Ctx) {
+	takesCtx := func(call *ssa.Call) bool {
+		sig := call.Call.Signature()
+		if sig.Params().Len() == 0 {
+			return false
+		}
+		first := sig.Params().At(0).Type()
+		if call.Call.IsInvoke() {
+			// method value of an interface: the receiver is not in Params
+			first = sig.Params().At(0).Type()
+		}
+		return first.String() == "context.Context"
+	}
+	total := 0
+	for _, fn := range c.Funcs {
+		if fn.Pkg != c.CmdSSA || fn.Blocks == nil {
+			continue
+		}
+		// only functions that themselves return an error
+		res := fn.Signature.Results()
+		hasErr := false
+		for i := 0; i < res.Len(); i++ {
+			if isErrorType(res.At(i).Type()) {
+				hasErr = true
+			}
+		}
+		if !hasErr {
+			continue
+		}
+		n := 0
+		instrs(fn, func(_ *ssa.BasicBlock, _ int, ins ssa.Instruction) {
+			if call, ok := ins.(*ssa.Call); ok && takesCtx(call) && errResultIndex(call) >= 0 {
+				n++
+			}
+		})
+		if n == 0 {
+			continue
+		}
+		key := fnKey(fn) + ":ctx-errors"
+		if why, ok := c07PropagateExceptions[fnKey(fn)]; ok {
+			c.info(key, fn.Pos(), "exception: %s", why)
+			continue
+		}
+		sites, bad := errPropagates(c, fn, func(name string, call *ssa.Call) bool { return takesCtx(call) }, errPropOpts{})
+		total += sites
+		if len(bad) > 0 {
+			c.bad(key, fn.Pos(), "%s", bad[0])
+		} else {
+			c.ok(key, fn.Pos(), "%d context-taking call(s); a failure of each makes %s fail", sites, fnKey(fn))
+		}
+	}
+	if total < 10 {
+		c.bad("commands:ctx-errors", token.NoPos, "only %d context-taking calls found in the command package", total)
 	}
 }
